@@ -29,8 +29,8 @@ theorem inv_start {s : St} (hi : Inv s) (ins : List Nat) :
   refine ⟨?_, ?_, ?_, ?_, ?_, ?_, ?_⟩ <;> simp only [Needed, Owned] <;> grind
 
 theorem inv_open {s : St} (hi : Inv s) (hw : s.wphase = .merging) (hb : s.builder = none) :
-    Inv { s with nextFile := s.nextFile + 1, pending := s.nextFile :: s.pending,
-                 disk := s.nextFile :: s.disk, builder := some s.nextFile } := by
+    Inv { s with nextFile := s.nextFile + 1, pending := s.pending ++ [s.nextFile],
+                 disk := s.disk ++ [s.nextFile], builder := some s.nextFile } := by
   have hlt := fun f => @needed_lt s hi f
   simp only [Needed, Owned] at hlt
   obtain ⟨h1, h2, h3, h4, h5, h6, h7⟩ := hi
@@ -49,7 +49,7 @@ theorem inv_finishEmpty {s : St} (hi : Inv s) : Inv { s with builder := none } :
   refine ⟨?_, ?_, ?_, ?_, ?_, ?_, ?_⟩ <;> simp only [Needed, Owned] <;> grind
 
 theorem inv_install {s : St} (hi : Inv s) (hw : s.wphase = .merging) (hb : s.builder = none) :
-    Inv { s with wphase := .installed, cur := s.cur.filter (· ∉ s.inputs) ++ s.outputs,
+    Inv { s with wphase := .installed, nextFile := s.nextFile + 1, cur := s.cur.filter (· ∉ s.inputs) ++ s.outputs,
                  old := s.old ++ s.cur.filter (· ∈ s.inputs) } := by
   obtain ⟨h1, h2, h3, h4, h5, h6, h7⟩ := hi
   simp only [Needed, Owned] at *
@@ -60,10 +60,8 @@ theorem inv_fail {s : St} (hi : Inv s) : Inv { s with wphase := .failed } := by
   simp only [Needed, Owned] at *
   refine ⟨?_, ?_, ?_, ?_, ?_, ?_, ?_⟩ <;> simp only [Needed, Owned] <;> grind
 
-theorem inv_cleanup {s : St} (hi : Inv s) (hw : s.wphase = .installed ∨ s.wphase = .failed)
-    (disk pend : List Nat)
-    (hd : ∀ f, f ∈ disk ↔ f ∈ s.disk ∧ ∀ n, s.builder = some n → f ≠ n) :
-    Inv { s with wphase := .idle, disk := disk, pending := pend, builder := none, outputs := [], inputs := [] } := by
+theorem inv_cleanup {s : St} (hi : Inv s) (hw : s.wphase = .installed ∨ s.wphase = .failed) (pend : List Nat) :
+    Inv { s with wphase := .idle, pending := pend, builder := none, outputs := [], inputs := [] } := by
   have hnm : s.wphase ≠ .merging := by rcases hw with h | h <;> simp [h]
   obtain ⟨h1, h2, h3, h4, h5, h6, h7⟩ := hi
   simp only [Needed, Owned] at *
@@ -133,17 +131,7 @@ theorem inv_step {cfg : Cfg} (hc : cfg.earlyRelease = false) {s s' : St} {a : Ac
     · cases h
   | cleanup =>
     simp only [step] at h; split at h
-    · rename_i hw
-      cases hb : s.builder with
-      | none =>
-        simp only [hb] at h; cases h
-        have := inv_cleanup hi hw s.disk (s.pending.filter (· ∉ s.outputs)) (by simp [hb])
-        simpa [hb] using this
-      | some n =>
-        simp only [hb] at h; cases h
-        have := inv_cleanup hi hw (s.disk.filter (· ≠ n)) ((s.pending.filter (· ≠ n)).filter (· ∉ s.outputs))
-          (by intro f; simp [hb])
-        simpa [hb] using this
+    · rename_i hw; cases h; exact inv_cleanup hi hw _
     · cases h
   | drop g =>
     simp only [step] at h; split at h
